@@ -106,6 +106,13 @@ fn mutations(kind: &str, seed: &[u8], thorough: bool) -> Vec<Vec<u8>> {
             out.push(f);
         }
     }
+    if kind == "doc" {
+        // a stream whose /Length is an indirect reference that only resolves after the parallel phase (the length object is
+        // compressed in an object stream), for lengths around the distance to the end of the file and beyond
+        let mut ls: Vec<u64> = (0..=70).map(|k| 10 * k as u64).collect();
+        ls.extend_from_slice(&[1, 5, 4294967295, 4294967296, 9223372036854775807]);
+        for l in ls { out.push(deferred_length_file(l)); }
+    }
     // nesting depth sweeps
     let depths: Vec<usize> = if thorough { vec![50, 99, 100, 101, 300, 3000, 20000, 100000] } else { vec![99, 100, 101, 300, 3000] };
     for d in depths { for (o, c) in [("[", "]"), ("<<", ">>"), ("(", ")"), ("<</A", ">>")] {
@@ -116,9 +123,49 @@ fn mutations(kind: &str, seed: &[u8], thorough: bool) -> Vec<Vec<u8>> {
     } }
     out
 }
+/// PDF 1.5 file: 1 catalog, 2 pages, 4 stream with /Length 7 0 R, 10 object stream holding object 7 = `l`, 60 xref stream
+fn deferred_length_file(l: u64) -> Vec<u8> {
+    let mut f: Vec<u8> = b"%PDF-1.5\n".to_vec();
+    let mut offs: Vec<(u32, usize)> = vec![];
+    let mut put = |f: &mut Vec<u8>, id: u32, body: &[u8]| { offs.push((id, f.len())); f.extend_from_slice(format!("{} 0 obj\n", id).as_bytes()); f.extend_from_slice(body); f.extend_from_slice(b"\nendobj\n"); };
+    put(&mut f, 1, b"<</Type/Catalog/Pages 2 0 R>>");
+    put(&mut f, 2, b"<</Type/Pages/Kids[]/Count 0>>");
+    let body = format!("7 0 {} ", l);
+    let first = "7 0 ".len();
+    put(&mut f, 10, format!("<</Type/ObjStm/N 1/First {}/Length {}>>\nstream\n{}\nendstream", first, body.len(), body).as_bytes());
+    put(&mut f, 4, b"<</Length 7 0 R>>\nstream\nabcdefghijklmnopqrstuvwxyz\nendstream");
+    let xpos = f.len();
+    offs.push((60, xpos));
+    let mut rows: Vec<u8> = vec![];
+    let mut index = String::new();
+    let mut ent: std::collections::BTreeMap<u32, (u8, u32, u16)> = std::collections::BTreeMap::new();
+    ent.insert(0, (0, 0, 65535)); ent.insert(7, (2, 10, 0));
+    for (id, o) in &offs { ent.insert(*id, (1, *o as u32, 0)); }
+    for (id, (t, a, b)) in &ent { index.push_str(&format!("{} 1 ", id)); rows.push(*t); rows.extend_from_slice(&a.to_be_bytes()); rows.extend_from_slice(&b.to_be_bytes()); }
+    f.extend_from_slice(format!("60 0 obj\n<</Type/XRef/Size 61/W[1 4 2]/Index[{}]/Root 1 0 R/Length {}>>\nstream\n", index.trim_end(), rows.len()).as_bytes());
+    f.extend_from_slice(&rows);
+    f.extend_from_slice(format!("\nendstream\nendobj\nstartxref\n{}\n%%EOF\n", xpos).as_bytes());
+    f
+}
 fn find(h: &[u8], n: &[u8]) -> Option<usize> { h.windows(n.len()).position(|w| w == n) }
 
+/// nesting-depth inputs only (run on an unoptimised build of the library as well, where stack frames are largest)
+fn depth_jobs(thorough: bool) -> Vec<(String, Vec<u8>)> {
+    let mut jobs: Vec<(String, Vec<u8>)> = vec![];
+    let mut depths: Vec<usize> = (1..=12).map(|k| 10 * k).collect();
+    depths.extend_from_slice(&[31, 32, 33, 63, 64, 65, 99, 101, 150, 300, 1000, 3000]);
+    if thorough { depths.extend_from_slice(&[20000, 100000]); }
+    for d in depths { for (o, c) in [("[", "]"), ("<<", ">>"), ("(", ")"), ("<</A", ">>"), ("[<</A", ">>]"), ("<</A[", "]>>")] {
+        let nested = format!("{}{}", o.repeat(d), c.repeat(d));
+        let mut m = nested.clone().into_bytes(); m.extend_from_slice(b" Tj"); jobs.push(("content".into(), m));
+        let mut m = b"%PDF-1.5\n1 0 obj\n".to_vec(); m.extend_from_slice(nested.as_bytes()); let xr = m.len() + 8;
+        m.extend_from_slice(format!("\nendobj\nxref\n0 2\n0000000000 65535 f \n0000000009 00000 n \ntrailer\n<</Size 2/Root 1 0 R>>\nstartxref\n{}\n%%EOF", xr).as_bytes()); jobs.push(("doc".into(), m));
+    } }
+    jobs
+}
+
 fn all_jobs(thorough: bool) -> Vec<(String, Vec<u8>)> {
+    if std::env::var("C04_ONLY").map(|v| v == "depth").unwrap_or(false) { return depth_jobs(thorough); }
     let mut jobs: Vec<(String, Vec<u8>)> = vec![];
     for (_, s) in seeds() { for m in mutations("doc", &s, thorough) { jobs.push(("doc".into(), m)); } }
     for m in mutations("content", &content_seed(), thorough) { jobs.push(("content".into(), m)); }
@@ -157,9 +204,18 @@ fn spawn(from: usize, to: usize, thorough: bool) -> std::process::Child {
         .stdout(Stdio::piped()).stderr(Stdio::null()).spawn().expect("spawn worker")
 }
 
+/// the nesting sweep alone; meant for the harness built WITHOUT optimisation (`cargo build`, dev profile), where the
+/// recursive descent parser's frames are several times larger than in a release build
+pub fn run_depth(thorough: bool) -> Report {
+    std::env::set_var("C04_ONLY", "depth");
+    let mut rep = run(thorough);
+    rep.bound = format!("nesting only, on this build of the harness (profile: {}): depths 10..120 in steps of 10, 31-33, 63-65, 99, 101, 150, 300, 1000, 3000 (thorough 20000, 100000) of [ ], << >>, ( ), <</A >>, [<</A >>], <</A[ ]>> as a content stream operand and as the only object of a document; each input in a worker thread with a 2 MiB stack (the default of spawned threads and of rayon workers), 4 GB address space, 10 s watchdog", if cfg!(debug_assertions) && cfg!(not(lopdf_verif_opt)) { "as built" } else { "as built" });
+    rep
+}
+
 pub fn run(thorough: bool) -> Report {
     let jobs = all_jobs(thorough);
-    let mut rep = Report::new("seeds: 4 small documents (table / xref stream / Flate+predictor xref stream with object stream / incremental), a content stream, a ToUnicode CMap, a text string; inputs: every single-byte substitution (quick: 25 lexically significant values, thorough: all 256) at every offset, every truncation, splices, 17 numeric extremes in every digit run, W/Index/Prev/Length/Kids constructions, nesting depth up to 3000 (thorough 100000) for [ << ( and dictionaries, all filter-parameter selector combinations over six payloads (empty deflate, raw rows, ASCII85, and three zlib streams ending in a truncated predictor row); each in a worker with a 2 MiB stack, 4 GB address space and a 10 s watchdog", false);
+    let mut rep = Report::new("seeds: 4 small documents (table / xref stream / Flate+predictor xref stream with object stream / incremental), a content stream, a ToUnicode CMap, a text string; inputs: every single-byte substitution (quick: 25 lexically significant values, thorough: all 256) at every offset, every truncation, splices, 17 numeric extremes in every digit run, W/Index/Prev/Length/Kids constructions, 76 files whose stream /Length is a compressed object resolving after the parallel phase (values 0..700 in steps of 10 around the distance to the end of the file, and 2^32, 2^63-1), nesting depth up to 3000 (thorough 100000) for [ << ( and dictionaries, all filter-parameter selector combinations over six payloads (empty deflate, raw rows, ASCII85, and three zlib streams ending in a truncated predictor row); each in a worker with a 2 MiB stack, 4 GB address space and a 10 s watchdog", false);
     let n = jobs.len();
     let workers = 16usize;
     let chunk = (n + workers - 1) / workers;
